@@ -311,6 +311,15 @@ Section Backup.
 
   (** * Rollback *)
 
+  (** [removeIfSymlink] (fix D23): a symlink that took the place of a tracked
+      file or directory is removed before the original is copied back *)
+  Definition remove_if_symlink (fsys : fsapi) (name : str) : M unit :=
+    r <- try_ (a_lstat fsys name) ;;
+    match r with
+    | Err e => if is_not_found e then ret tt else fail e
+    | Ok fi => match fi_kind fi with KLink => a_remove fsys name | _ => ret tt end
+    end.
+
   Definition restore_file (name : str) (info : finfo) : M unit :=
     r <- try_ (a_open backup name) ;;
     match r with
@@ -327,9 +336,14 @@ Section Backup.
             match r3 with
             | Err e => _ <- try_ (hclose f) ;; fail e
             | Ok _ =>
-                r4 <- try_ (copy_file base name info f) ;;
-                _ <- try_ (hclose f) ;;
-                lift_res r4
+                r3b <- try_ (remove_if_symlink base name) ;;
+                match r3b with
+                | Err e => _ <- try_ (hclose f) ;; fail e
+                | Ok _ =>
+                    r4 <- try_ (copy_file base name info f) ;;
+                    _ <- try_ (hclose f) ;;
+                    lift_res r4
+                end
             end
         end
     end.
@@ -390,7 +404,7 @@ Section Backup.
     (* `multiErr = errors.Join(err)` : a failure here replaces the earlier errors *)
     let errs1 := match e1 with [] => errs0 | _ => e1 end in
     e2 <- collect_errs (fun p => match info_of_key infos p with
-                                 | Some fi => copy_dir base p fi
+                                 | Some fi => remove_if_symlink base p ;;; copy_dir base p fi
                                  | None => fail EOther end) (sort_least ds) ;;
     e3 <- collect_errs (fun p => match info_of_key infos p with
                                  | Some fi => restore_file p fi
